@@ -100,7 +100,8 @@ uint32_t Ruleset__runOnceImpl__h(uptr_Ruleset inst, OomdContext c)
   }
   uint32_t r = nondet_u32(); __CPROVER_assume(r <= 1); return r;
 }
-uint32_t Ruleset__runOnceImpl(Ruleset *self, OomdContext c) { uint32_t r = nondet_u32(); __CPROVER_assume(r <= 1); return r; }
+uint64_t g_self_runs;      /* runOnceImpl calls on the ruleset object itself (unscoped rulesets) */
+uint32_t Ruleset__runOnceImpl(Ruleset *self, OomdContext c) { g_self_runs = g_self_runs + 1; uint32_t r = nondet_u32(); __CPROVER_assume(r <= 1); return r; }
 void Ruleset__prerun__h(uptr_Ruleset inst, OomdContext c)
 {
   __CPROVER_assert(inst != 0, "UB: null unique_ptr dereferenced");
@@ -199,8 +200,15 @@ mapit_pair_str_t_uptr_Ruleset umap_str_t_uptr_Ruleset__erase(umap_str_t_uptr_Rul
 uint32_t Ruleset__runOnce(Ruleset *self, OomdContext context)
   __CPROVER_requires(__CPROVER_is_fresh(self, sizeof(*self)) && ghost_exc == 0 && (!self->cgroup_.has || self->cgroup_.val != 0) &&
                      self->detector_groups_.n <= VEC_MAX && self->action_group_.n <= VEC_MAX)
-  __CPROVER_requires(g_map_n <= VEC_MAX && (!g_in_map || (g_kpos < g_map_n && g_inst != 0)) && !g_k_visited && g_k_runs == 0 && !g_k_created)
-  __CPROVER_assigns(g_in_map, g_inst, g_kpos, g_map_n, g_k_visited, g_k_runs, g_k_created, g_k_preruns, g_other, g_rscg, g_resolved_n, g_make_calls, g_dg_copies, g_act_copies, g_try_emplaces, g_forced_sets, g_emplaced_key, g_emplaced_val, g_new_name, g_new_delay, g_new_hook_timeout, g_new_silence, g_new_dod, g_new_dgd, g_new_agd, g_new_ndg, g_new_nact, g_new_inst, g_rel_of_cgroup)
+  __CPROVER_requires(g_map_n <= VEC_MAX && (!g_in_map || (g_kpos < g_map_n && g_inst != 0)) && !g_k_visited && g_k_runs == 0 && !g_k_created && g_self_runs == 0)
+  __CPROVER_assigns(g_self_runs, g_in_map, g_inst, g_kpos, g_map_n, g_k_visited, g_k_runs, g_k_created, g_k_preruns, g_other, g_rscg, g_resolved_n, g_make_calls, g_dg_copies, g_act_copies, g_try_emplaces, g_forced_sets, g_emplaced_key, g_emplaced_val, g_new_name, g_new_delay, g_new_hook_timeout, g_new_silence, g_new_dod, g_new_dgd, g_new_agd, g_new_ndg, g_new_nact, g_new_inst, g_rel_of_cgroup)
+  /* a DISABLED ruleset (drop-in targeted with disable-on-drop-in) evaluates nothing: neither itself nor any per-cgroup
+     instance, and keeps its instances; an enabled unscoped ruleset evaluates itself exactly once */ /*@C13,C11,C02*/
+  __CPROVER_ensures(!self->enabled_ ? (g_self_runs == 0 && g_k_runs == 0 && __CPROVER_return_value == 0 &&
+                                       (g_in_map != 0) == (__CPROVER_old(g_in_map) != 0) && g_inst == __CPROVER_old(g_inst) && g_map_n == __CPROVER_old(g_map_n))
+                                    : 1)
+  __CPROVER_ensures((self->enabled_ && !self->cgroup_.has) ? (g_self_runs == 1 && g_k_runs == 0) : 1)
+  __CPROVER_ensures((self->enabled_ && self->cgroup_.has) ? g_self_runs == 0 : 1)
   /* for a cgroup-scoped, enabled ruleset and ANY cgroup K: */
   /* K matched, opened and carries the filter attribute  <=>  its instance was evaluated exactly once, and survives */ /*@C11*/
   __CPROVER_ensures((self->enabled_ && self->cgroup_.has)
@@ -255,7 +263,7 @@ void Ruleset__prerun(Ruleset *self, OomdContext context)
 void Ruleset__registerRunnableRulesetForCgroupPath__note(void);
 #define HAVOC_RSC() do { HAVOC(g_K); HAVOC(g_in_map); HAVOC(g_inst); HAVOC(g_map_n); HAVOC(g_kpos); HAVOC(g_k_visited); HAVOC(g_k_runs); HAVOC(g_k_preruns); \
   HAVOC(g_k_created); HAVOC(g_rscg); HAVOC(g_k_resolved); HAVOC(g_k_index); HAVOC(g_k_open); HAVOC(g_k_tagged); HAVOC(g_make_calls); HAVOC(g_dg_copies); \
-  HAVOC(g_act_copies); HAVOC(g_try_emplaces); HAVOC(g_forced_sets); HAVOC(ghost_exc); } while (0)
+  HAVOC(g_act_copies); HAVOC(g_try_emplaces); HAVOC(g_forced_sets); HAVOC(ghost_exc); HAVOC(g_self_runs); } while (0)
 #define CANARY __CPROVER_assert(0, "canary: contract precondition satisfiable and function exit reachable")
 void h_Ruleset__runOnce(void) { Ruleset *self; OomdContext c; HAVOC_RSC(); Ruleset__runOnce(self, c); CANARY; }
 void h_Ruleset__registerRunnable(void) { Ruleset *self; OomdContext c; CgroupPath cg; HAVOC_RSC(); g_rel_expected = __CPROVER_uninterpreted_relpath(cg); Ruleset__registerRunnableRulesetForCgroupPath(self, c, cg); CANARY; }
